@@ -5,17 +5,24 @@ from vlib import Case
 RULE = ("every adapter (callback_await / callback_await_alloc, make_promise, discard, future_conv, call_fn_future_awaiter) x outcome "
         "(value / exception / dropped promise) x timing (future constructed ready; resolved inside the init function before the "
         "registration; promise parked and resolved by a second thread under a controlled schedule = before / during / after the "
-        "registration; resolved later by the registering thread) x helper storage (heap / counting storage) x converter (returns / throws); "
-        "engine adapt = real threads, one runnable at a time, yield at every COCLS_VERIF_POINT; engine adseq = the same scenarios "
-        "without the controller on one thread; random, bursty, resolver-first and registrar-first schedules, thorough adds every "
-        "schedule prefix of length 11 for the two-thread configurations; non-trivial = valid configuration and (single-threaded timing, "
-        "or at least 2 thread switches in the executed trace); distinct = distinct (configuration, schedule)")
-SCOPE = ("callback_await/callback_await_alloc + callback_await_coro, future_with_cb/make_promise (heap and storage), discard, "
-         "future_conv_promise_base::operator<< + future_conv resume function (member-function converter), call_fn_future_awaiter, over "
-         "promise::claim/set/~promise, future::resolve, awaiter::subscribe_check_ready/resume_chain_lk, co_awaiter::await_ready/await_suspend")
-ASSUMPTIONS = ["one registration per future and one resolver (competing resolvers are C01); the source future has at most one subscriber",
+        "registration; resolved later by the registering thread) x helper storage (heap / counting storage / cocls::reusable_storage / "
+        "second of two trailer-tagged counting storages / cocls::reusable_storage_mtsafe) x future type (future<counted>, future<void>, "
+        "factory returning future<counted&>) x caller mode (plain thread / coro_queue active) x converter (all six future_conv "
+        "specialisations; returns / throws / resolves with an exception / declines / forwards the promise to a third thread) x optional "
+        "competing resolver on a third thread (value / exception / p(drop)); engine adapt* = real threads, one runnable at a time, "
+        "yield at every COCLS_VERIF_POINT; engine adseq* = the same scenarios without the controller on one fresh thread; random, bursty, "
+        "resolver-first and registrar-first schedules, thorough adds every schedule prefix of length 8-11 for the two-thread "
+        "configurations and every prefix of length 7 over three threads for the competitor; non-trivial = valid configuration and "
+        "(single-threaded timing, or at least 2 thread switches in the executed trace); distinct = distinct (engine, configuration, schedule)")
+SCOPE = ("callback_await/callback_await_alloc + callback_await_coro (value and void), future_with_cb/make_promise (heap and storage), "
+         "discard, future_conv_promise_base::operator<< + all future_conv resume functions, call_fn_future_awaiter, custom_allocator_base "
+         "operator new/delete with five storages, over promise::claim/set/p(drop)/~promise, future::resolve, future<T&> ready-made and "
+         "promise-resolved, awaiter::subscribe_check_ready/resume_chain_lk, co_awaiter::await_ready/await_suspend, suspend_point discard "
+         "in normal and coroutine mode")
+ASSUMPTIONS = ["one registration per future; at most two resolvers (the promise holder and one competitor); the source future has at most one subscriber",
                "interleaving at the granularity of the hook points, sequentially consistent (memory order is C03)",
-               "the registering code runs on an ordinary thread (coro_queue not active); callbacks read the future with value(), not wait()"]
+               "callbacks read the future with value(), not wait(); user callbacks other than callback_await's do not throw (they run inside noexcept resume functions)",
+               "per-case leak attribution by the harness's own new/delete balance (line 41) and the scenario counters (line 40); LeakSanitizer's exit report is switched off for this harness"]
 
 ADAPTERS = [0, 1, 2, 3, 4]
 TYPES = ["", "v", "r"]          # future<counted>, future<void>, factory returns future<counted&>
@@ -201,6 +208,10 @@ def signature(case, impl_obs, model_obs):
         kind = "oracle"
         if any(o and o[0] == 4 and o[1:] == [1] for o in case.ops) and sum(1 for l in impl_obs if l.startswith("30 ")) == 2:
             kind = "throwing-callback-invoked-twice"
+        elif case.engine.endswith("r") and case.ops and len(case.ops[0]) == 4 and case.ops[0][2] == 0 and len(case.ops) > 1 and case.ops[1][:2] == [2, 0]:
+            kind = "ready-reference-future-read-as-value"
+        elif case.engine.endswith("v") and ad == 3 and len(case.ops) > 1 and case.ops[1][0] == 2 and case.ops[1][1] != 0:
+            kind = "void-source-exception-swallowed"
     return "adapter%s:%s" % (ad, kind)
 
 
